@@ -273,9 +273,17 @@ static void float_cases(Harness &H, const char *tn, const std::vector<mpq_class>
     for (long bi = -1; bi < (long)sets.size(); bi++) {
       if (emb && bi >= 0) break;
       size_t NB = order - 1;
-      for (int rh = 0; rh < 3; rh++) {
+      for (int rh = 0; rh < 5; rh++) {
         if (!H.take()) continue;
         std::vector<mpq_class> y(n, mpq_class(0)), bv(NB, mpq_class(0));
+        if (rh >= 3) {
+          // the generic right-hand side at a very small (2^-60) and a large (2^40) scale: the system is linear, so the
+          // solution and every residual scale with it; thresholds with an ABSOLUTE size (coefficients "below epsilon
+          // are rounding residue") only show when the data is far from order one
+          mpq_class sc = rh == 3 ? mpq_class(1) / mpq_class(1L << 60) : mpq_class(1L << 40);
+          for (size_t i = 0; i < n; i++) y[i] = mq((i % 2 ? -1 : 1) * primes()[i]) * sc;
+          for (size_t i = 0; i < NB && bi >= 0; i++) bv[i] = mq(primes()[i + 3]) * sc;
+        } else
         if (rh == 0) y[n / 2] = 1;
         else if (rh == 1) { for (size_t i = 0; i < n; i++) y[i] = mq((i % 2 ? -1 : 1) * primes()[i]); for (size_t i = 0; i < NB && bi >= 0; i++) bv[i] = mq(primes()[i + 3]); }
         else { for (size_t i = 0; i < n; i++) y[i] = mq(100 + (long)i); if (bi >= 0 && NB) bv[0] = 1; }
